@@ -197,6 +197,29 @@ pub fn c11_specs(tier: Tier) -> Vec<Spec> {
         specs.push(Spec::new(true, vec![Pat::regex("(?&t)x")]).with_sub("t", "(?&s)c").with_sub("s", b));
         specs.push(Spec::new(true, vec![Pat::skip("(?&nope)"), Pat::token("q")]).with_sub("s", b));
     }
+    // flags of the USER reach into the included text (textual inclusion): ignore(case) on the
+    // definition, inline flags in front of / around the reference; bodies that are sensitive to
+    // them (cased letters, `.`, their own (?-i:..) / (?-s:..) groups, Kelvin sign / long s folds)
+    let fbodies = ["a", "aB|Ab", "(?-i:aB|Ab)", ".", "[a-c]x", "é|ü", "k", "s+", "(?i)a|b", "(?-s:.)b", "a b", "[^a]"];
+    let fusers = ["(?&s)", "x(?&s)y", "(?&s)+z", "X(?&s)|q(?&s)"];
+    for b in fbodies.iter().take(if tier == Tier::Thorough { 12 } else { 8 }) {
+        for u in fusers {
+            for utf8 in [true, false] {
+                specs.push(Spec::new(utf8, vec![Pat::regex(u).icase()]).with_sub("s", b));
+                specs.push(Spec::new(utf8, vec![Pat::skip(u).icase(), Pat::token("0")]).with_sub("s", b));
+                specs.push(Spec::new(utf8, vec![Pat::regex(u).icase().prio(9), Pat::regex("[a-zA-Z]+").prio(1)]).with_sub("s", b));
+            }
+            for wrap in ["(?s){}", "(?i){}", "(?i:{})w", "(?s:{})w", "(?is){}", "w(?i){}", "(?x) {} w", "(?U){}", "(?m){}", "(?-u){}"] {
+                let user = wrap.replace("{}", u);
+                specs.push(Spec::new(true, vec![Pat::regex(&user)]).with_sub("s", b));
+                specs.push(Spec::new(false, vec![Pat::regex(&user)]).with_sub("s", b));
+                specs.push(Spec::new(true, vec![Pat::skip(&user), Pat::token("0")]).with_sub("s", b));
+            }
+            // two levels, the flag on the outermost user
+            specs.push(Spec::new(true, vec![Pat::regex(&u.replace("(?&s)", "(?&t)")).icase()]).with_sub("s", b).with_sub("t", "(?&s)c|D"));
+            specs.push(Spec::new(true, vec![Pat::regex(&format!("(?s){}", u.replace("(?&s)", "(?&t)")))]).with_sub("s", b).with_sub("t", "(?&s)c|D"));
+        }
+    }
     // Unicode mode is the SUBPATTERN's own: str bodies whose meaning depends on it, referenced from
     // byte-string patterns / from inside (?-u:...), and byte-string bodies referenced from str patterns
     for body in [".", "[^a]", "\\w", "(?i)k", "é", "\\s", "[a-zé]"] {
